@@ -4,6 +4,13 @@ import json, os, sys
 ROOT = os.path.dirname(os.path.dirname(os.path.abspath(__file__)))
 sys.path.insert(0, ROOT)
 from tools.manifest_table import CHECKS, NOT_APPLICABLE, NOTES  # noqa
+import ast, re
+
+# carried callee contracts (contracts/carried.py) are appended to each level_note from the source of truth
+_src = open(os.path.join(ROOT, "contracts", "carried.py")).read()
+CARRIED = {}
+for m in re.finditer(r'^    "(C\d\d)": \[(.*)\],$', _src, re.M):
+    CARRIED[m.group(1)] = sorted(set(f"{a} {b}" for a, b in re.findall(r'\("(C\d\d)", "([^"]+)"', m.group(2))))
 
 props = [json.loads(l)["id"] for l in open(os.path.join(ROOT, "properties.jsonl"))]
 checks = []
@@ -19,7 +26,7 @@ for pid in props:
         "replay_cmd_template": f"./check {pid} --replay {{path}}",
         "engine": c["engine"],
         "level_claimed": {"category": "proof", "text": c["text"], "design_ref": c.get("design_ref", "DESIGN.md §3 " + pid)},
-        "level_note": c["note"],
+        "level_note": re.sub(r"; carried callee contracts: [^;]*$", "", c["note"]) + ("; carried callee contracts (contracts/carried.py: discharged by this check as well, obligations keep their home prefix): " + ", ".join(CARRIED[pid]) if pid in CARRIED else ""),
         "technique": c["technique"],
     })
 na = [{"property_id": p, "reason": NOT_APPLICABLE[p]} for p in props if p not in CHECKS]
